@@ -498,6 +498,34 @@ def rmDemo : List (Tid × Nat) :=
 example : (RM.run RM.init rmDemo).map (fun s => (s.rets.map fun r => (r.tid, r.key, r.val), s.ncreate 2, s.res 2))
     = some ([(2, 2, 9), (0, 2, 9), (1, 2, 0), (0, 2, 0)], 1, some 9) := by decide
 
+/-! ### a panicking `create` (outside the property's quantifier; this is what the code does)
+The flight group cleans up as in `sf_panic_cleanup` and the panic leaves `GetResource` in the leader.  A joiner gets
+`(nil, nil)` from `Do` and `val.(io.Closer)` then panics with a nil interface conversion: joiners of a panicked
+flight panic as well (rows `w2`/`px` of the model); nothing is stored, the next caller creates afresh.  All `rm_*`
+theorems above quantify over these schedules too. -/
+theorem rm_panic_cleanup {s : RM.St} (h : RM.Reach s) (t : Tid) (ht : s.pc t = .px) :
+    s.wg (s.reg t) = 0 ∧ s.calls (s.key t) ≠ some (s.reg t) := by
+  have hi := RM.inv_reach h
+  have ho := hi.owns t (by simp [ht, RM.PC.owns])
+  refine ⟨hi.wg0 t (Or.inr (by simp [ht, RM.PC.after])), ?_⟩
+  intro hc
+  have := (hi.calls _ _ hc).2.2.1
+  rw [ho.2.1, ht] at this
+  simp [RM.PC.inFlight] at this
+
+/-- goroutine 0's `create` for key 2 panics while goroutine 1 has joined the flight: neither call returns
+(both panic), nothing is stored or counted; goroutine 2 then creates instance 9. -/
+def rmPanicDemo : List (Tid × Nat) :=
+  [(0,2)] ++ List.replicate 10 (0,0) ++ [(0,1)] ++   -- 0: invoke … create() running, will panic (gp)
+  [(1,2),(1,0),(1,0),(1,0)] ++                    -- 1: joins the flight
+  List.replicate 6 (0,0) ++                       -- 0: create panics; delete, unlock, Done; panic leaves GetResource
+  [(1,0),(1,0)] ++                                -- 1: wakes; val.(io.Closer) panics
+  [(2,2)] ++ List.replicate 11 (2,0) ++ [(2,9)] ++ List.replicate 9 (2,0)   -- 2: creates 9
+
+example : (RM.run RM.init rmPanicDemo).map
+      (fun s => (s.rets.map fun r => (r.tid, r.key, r.val), s.ncreate 2, s.res 2, s.pc 0, s.pc 1))
+    = some ([(2, 2, 9)], 1, some 9, RM.PC.idle, RM.PC.idle) := by decide
+
 /-! `Inject` (outside `RM.Reach`; what the code does): registered *before* any call it is simply the instance
 everyone gets and `create` never runs; registered *after* a successful create it replaces the stored instance, so
 later callers hold a different instance than earlier ones — `Inject` is a test hook, not covered by the property. -/
